@@ -258,6 +258,10 @@ def check_case(case, ctr):
             pp = pathlib.Path(Ctx.tmp) / 'p.json'
             c0.tojson(pp, ignore_lattice=flag, indent=2)
             same(C.fromjson(pp, raw=True), 'json-pathlib', state=state, dump_flag=flag)
+            buf2 = io.StringIO()
+            c0.tojson(buf2, ignore_lattice=flag, indent=2)
+            same(C.fromjson(io.StringIO(buf2.getvalue())), 'json-fileobj-indent', state=state,
+                 dump_flag=flag)
             buf = io.StringIO()
             c0.tojson(buf, ignore_lattice=flag, sort_keys=False)
             text = buf.getvalue()
@@ -445,9 +449,14 @@ def run_long():
     import concepts
     ctr = collections.Counter()
     V = []
-    for n, m, word in ((8, 4, 'object number'), (12, 3, 'a b c d e f g'), (3, 12, 'x')):
+    for n, m, word in ((8, 4, 'object number'), (12, 3, 'a b c d e f g'), (3, 12, 'x'),
+                       (3, 2, 'empty-object-label'), (3, 2, 'empty-property-label')):
         objs = [f'{word} {i} of the table' for i in range(n)]
         props = [f'property {j} with a rather long name' for j in range(m)]
+        if word == 'empty-object-label':        # the empty string is a label like any other
+            objs, props = ['', 'b', ' '], ['p', 'q']
+        elif word == 'empty-property-label':
+            objs, props = ['a', 'b', 'c'], ['p', '']
         for shift in range(3):
             rows = [tuple((i + j + shift) % 3 == 0 for j in range(m)) for i in range(n)]
             c = concepts.Context(objs[shift:] + objs[:shift], props, rows)
